@@ -16,6 +16,7 @@ import LfsModel.FilterProcess
 import LfsModel.CrashExec
 import LfsModel.Hooks
 import LfsModel.Track
+import LfsModel.PushModel
 import LfsModel.Gen
 open Lfs
 
@@ -324,6 +325,21 @@ def c19 : List String → String
       | _, _ => "bad-op")
   | _ => "bad-op"
 
+def parseRefs (s : String) : Option (List PushM.Ref) :=
+  if s == "-" then some [] else
+  (s.splitOn ",").mapM fun p => match p.splitOn ":" with
+    | [n, i] => i.toNat?.map fun k => (n, k)
+    | _ => none
+
+def sortNat (l : List Nat) : List Nat := l.foldr (fun x acc => (acc.takeWhile (· ≤ x)) ++ [x] ++ (acc.dropWhile (· ≤ x))) []
+
+def c03 : List String → String
+  | ["excl", c, a] => match parseRefs c, parseRefs a with
+    | some cached, some actual =>
+      String.intercalate "," (sortStr ((PushM.excluded cached actual).map toString))
+    | _, _ => "bad-op"
+  | _ => "bad-op"
+
 def answer (line : String) : String :=
   match line.splitOn " " with
   | "C07" :: rest => c07 rest
@@ -337,6 +353,7 @@ def answer (line : String) : String :=
   | "C09" :: rest => c09 rest
   | "C20" :: rest => c20 rest
   | "C19" :: rest => c19 rest
+  | "C03" :: rest => c03 rest
   | "C15" :: rest => c15 rest
   | _ => "bad-op"
 
